@@ -18,7 +18,7 @@ ASSUMPTIONS = [
     "the parent link of the copy's root is not constrained by the statement",
     "sharing of immutable values (strings) between copy and original is not 'mutable state'",
 ]
-REQUIRED = ["cross_session_documents", "copies", "edits_on_copy", "edits_on_original", "aliasing_checks", "inner_node_copies", "second_generation_copies", "trees_with_a_default_namespace", "nodes_in_one_copy", "trees_with_unregistered_nodes", "deep_chain_copies", "trees_with_stale_parent_links", "wide_trees", "trees_with_repeated_id_strings", "original_registry_entries_rechecked", "copies_with_shared_nsmap_in_original"]
+REQUIRED = ["copies_made_after_reseeding_the_global_generator", "trees_with_domain_attribute_combinations", "cross_session_documents", "copies", "edits_on_copy", "edits_on_original", "aliasing_checks", "inner_node_copies", "second_generation_copies", "trees_with_a_default_namespace", "nodes_in_one_copy", "trees_with_unregistered_nodes", "deep_chain_copies", "trees_with_stale_parent_links", "wide_trees", "trees_with_repeated_id_strings", "original_registry_entries_rechecked", "copies_with_shared_nsmap_in_original"]
 EXHAUSTIVE = {"quick": False, "thorough": False}
 
 EDITS = ("content", "tail", "prefix", "name", "attr_add", "attr_overwrite", "attr_remove", "extras_add", "ns_declare", "ns_redeclare",
@@ -210,6 +210,13 @@ def one_tree(ctx, size, i):
             if Node.store.get(x.id) is x:
                 Node.delete_node_instance(x.id, children=False)
         ctx.count("trees_with_unregistered_nodes")
+    if i % 6 == 5:
+        # attributes as EML documents carry them, in the combinations they come in (id with scope, system with id, typed systems)
+        from vlib import domain
+        for x in rng.sample(snapshot.walk(t), min(4, len(snapshot.walk(t)))):
+            for k, v in rng.choice(domain.ATTRIBUTE_COMBOS).items():
+                x.add_attribute(k, v)
+        ctx.count("trees_with_domain_attribute_combinations")
     share = rng.random() < 0.5
     if share:
         share_equal_maps(t)
@@ -255,6 +262,30 @@ def one_tree(ctx, size, i):
                 check_copy(ctx, c, s2, c2, ids2, wit)
         except Exception as e:
             ctx.violation(f"crash:{type(e).__name__}@{emlkit.raise_site(e)}|second-generation", f"copy() of a copy raised {e!r}", wit())
+        if i % 3 == 0:
+            # two copies made in the same state of the process-wide random generator (a script that seeds it at the start of every
+            # run, forked workers): the second copy's ids are as fresh as any
+            import random as _random
+            state = _random.getstate()
+            try:
+                _random.seed(20240229)
+                ca = src.copy()
+                _random.seed(20240229)
+                ids3 = set(Node.store.keys())
+                cb = src.copy()
+                ctx.evaluated(2)
+                ctx.count("copies_made_after_reseeding_the_global_generator")
+                check_copy(ctx, t, src, cb, ids3, lambda: dict(wit(), reseeded=True))
+                for n in snapshot.walk(ca):
+                    if Node.get_node_instance(n.id) is not n:
+                        ctx.violation("copy-node-not-registered|after-a-later-copy", "a later copy took over the registry entry of an earlier copy's node",
+                                      dict(wit(), reseeded=True))
+                        break
+                gen2 += [ca, cb]
+            except Exception as e:
+                ctx.violation(f"crash:{type(e).__name__}@{emlkit.raise_site(e)}|reseeded", f"copy() raised {e!r}", wit())
+            finally:
+                _random.setstate(state)
         emlkit.discard(c, *gen2)
         independence_sweep(ctx, plain, src_index, exhaustive=len(nodes) <= 12 and (ctx.tier == "thorough" or len(nodes) <= 5),
                            share=share)
@@ -401,6 +432,20 @@ def replay(ctx, witness):
             check_copy(ctx, c, s2, s2.copy(), ids2, lambda: witness)
     except Exception as e:
         ctx.violation(f"crash:{type(e).__name__}@{emlkit.raise_site(e)}|second-generation", f"copy() of a copy raised {e!r}", witness)
+    if witness.get("reseeded"):
+        import random as _random
+        state = _random.getstate()
+        try:
+            _random.seed(20240229)
+            ca = src.copy()
+            _random.seed(20240229)
+            ids3 = set(Node.store.keys())
+            cb = src.copy()
+            check_copy(ctx, t, src, cb, ids3, lambda: witness)
+            if any(Node.get_node_instance(n.id) is not n for n in snapshot.walk(ca)):
+                ctx.violation("copy-node-not-registered|after-a-later-copy", "a later copy took over the registry entry of an earlier copy's node", witness)
+        finally:
+            _random.setstate(state)
     if "kind" in witness:
         side, idx, kind = witness["side"], witness["node_index"], witness["kind"]
         target = snapshot.walk(c if side == "copy" else src)[idx]
